@@ -19,6 +19,7 @@ Init == st = Empty /\ ok = TRUE /\ alive = FALSE /\ depth = 0 /\ hist = <<>> /\ 
 
 New(o, t)      == ~alive /\ Apply(NewF(o, t), "New") /\ alive' = NewF(o, t).ok /\ Log("New", o, t)
 SetItems(t)    == alive /\ Apply(SetItemsF(st, t), "SetItems") /\ UNCHANGED alive /\ Log("SetItems", "", t)
+SetLine(o, t)  == alive /\ (Gen => ArityOK(o, t)) /\ Apply(SetLineF(st, o, t), "SetLine") /\ UNCHANGED alive /\ Log("SetLine", o, t)
 SetPorts(c)    == alive /\ ~Gen /\ Apply(SetPortsF(st, c), "SetPorts") /\ UNCHANGED alive /\ Log("SetPorts", "", <<>>)
 WriteBackItems == alive /\ Apply(WriteBackItemsF(st), "WriteBackItems") /\ UNCHANGED alive /\ Log("WriteBackItems", "", <<>>)
 WriteBackPorts == alive /\ Apply(WriteBackPortsF(st), "WriteBackPorts") /\ UNCHANGED alive /\ Log("WriteBackPorts", "", <<>>)
@@ -26,6 +27,7 @@ WriteBackSport == alive /\ Apply(WriteBackSportF(st), "WriteBackSport") /\ UNCHA
 
 Next == \/ \E o \in Ops, t \in Tup : New(o, t)
         \/ \E t \in Tup : SetItems(t)
+        \/ \E o \in Ops, t \in (IF Gen THEN {st.items, <<5, 2>>} ELSE Tup) : SetLine(o, t)
         \/ \E c \in Subsets : SetPorts(c)
         \/ WriteBackItems \/ WriteBackPorts \/ WriteBackSport
 Spec == Init /\ [][Next]_vars
@@ -40,5 +42,7 @@ WB_Identity == [][WriteBack => (st' = st /\ (~ok' => st.ports = <<>>))]_vars
 WB_ItemsNeverRefused == [][WriteBackItems => ok']_vars
 (* an accepted port-set assignment denotes exactly the assigned set *)
 SetPortsExact == [][\A c \in Subsets : (SetPorts(c) /\ ok') => st'.ports = c]_vars
+(* a re-assigned line leaves nothing of the previous expression behind: the object equals a fresh one *)
+SetLineFresh == [][\A o \in Ops, t \in Tup : (SetLine(o, t) /\ ok') => st' = NewF(o, t).st]_vars
 GenLeaf == (Gen /\ depth = MaxDepth) => PrintT(ToJson([hist |-> hist]))
 =============================================================================
